@@ -8,26 +8,31 @@
      [vrel known v v']    : v' is the value the optimized program has where the unoptimized one has v:
                             equal except inside closures, whose bodies are optimized forms and whose
                             environments agree on the names the optimized body uses (a folded closure
-                            captures nothing, the reference closure the whole environment);
-     [wrel R r r']        : r' = Unsup (the optimized side left the exact float model - possible only
-                            with a regrouping operator), or both outcomes are values related by R /
-                            the same thrown error / both panic.
+                            captures nothing, a closure computed at Generate time what its body uses,
+                            the reference closure the whole environment);
+     [orel known r r']    : both outcomes are values related by vrel / the same thrown error / both
+                            panic / both out of fuel / both outside the exact model.
    * fuel: if the unoptimized evaluation is decided (neither out of fuel nor outside the model) with
      fuel n, the optimized program is decided with every fuel m >= n and agrees.
    * [side_ok a] (Sim.v): the constants of the source program are first-order and no closure
      literal has its own name among its OuterIdents (what the parser produces without optimizer).
-   * [strict fl]: the optimizer that keeps a computed constant only if it is a first-order value, so
-     that the only closure constants are the ones of the closure-literal rule.  The implementation is
-     not strict; it behaves like the strict optimizer on every program for which
-     optimize value_flags a = optimize (strict value_flags) a (a decidable test: the correspondence run
-     evaluates it per program and counts the programs outside, e.g. [x -> x+1] folded to a constant
-     list of closures, or (x -> y -> x+y)(1) folded to a capturing closure).
-   * nothing is assumed about code run at Generate time any more: Gen.exec on a fresh stack is tied
-     to the reference semantics by the C01 theorems (exec_sim, call on a fresh frame) and eval_mono.
+   * ALL programs, the optimizer as it is: a constant computed at Generate time may be a closure or a
+     list/map containing closures ((x -> y -> x+y)(1), [x -> x+1], a map of closures ...).  Such a
+     constant is what GENERATED code computed; the reference semantics computes a value that the C01
+     relation relates to it (Sim.vrel: same bodies, the generator's closures capture only what they
+     use), and the value relation of this proof absorbs that relation (OptWf.vrel_comp), so the
+     constant can stand where the program would have computed the value (rule ar_gstep).  The test
+     "strict = non-strict optimizer on this program" of the previous version is no longer needed; the
+     strict optimizer is just one more configuration.
+   * the obligations on a configuration are decidable ([cfg_ok]: no operator flagged commutative, the
+     method rule checks closure fields, map handler present) and are discharged by computation for
+     value_flags and for the flags regenerated from the tree.
+   * nothing is assumed about code run at Generate time: Gen.exec on a fresh stack is tied to the
+     reference semantics by the C01 theorems (exec_sim, call on a fresh frame) and eval_mono.
    * the exact per-evaluation call COUNTS of impure functions are compared on the implementation by
      the correspondence run (counters in harness functions); the core model has no effect log, it
      proves that nothing impure is run at Generate time (the purity theorems below) and that the
-     thrown text of `throw` is the same with and without optimizer (wrel relates Err t to Err t). *)
+     thrown text of `throw` is the same with and without optimizer (orel relates Err t to Err t). *)
 From P2 Require Import Base.Prelude Sem.Num Sem.Syntax Sem.Ops Sem.Lib Sem.Ref Sem.Gen Sem.Sim Sem.RefMono Sem.Opt
   Sem.OptRel Sem.OptRelProofs Sem.OptProofs Sem.OptWf Sem.OptSound Sem.OptFlagsProofs Sem.OptValue
   Sem.OptExamples Sem.OptCfg Generated.ValueCfg Run.C02Run.
@@ -46,10 +51,20 @@ Proof. exact RefMono.eval_mono. Qed.
 Theorem optimized_form_sound : forall known n s a t env env' m,
   arel known s a t -> env_rel known s (fvp t) env env' -> n <= m ->
   decided (eval known n env a) ->
-  wrel (vrel known) (eval known n env a) (eval known m env' t).
+  orel known (eval known n env a) (eval known m env' t).
 Proof. exact sim. Qed.
 
-(* code run at Generate time agrees with the reference semantics (from C01's exec_sim) *)
+(* code run at Generate time against the reference semantics (from C01's exec_sim): the reference
+   semantics computes, with the same fuel, a value that the C01 relation relates to the result ... *)
+Theorem generate_time_call_related : forall known fuel c cs v,
+  cwf c -> Forall cwf cs -> gapp known fuel c cs = Ok v ->
+  exists v1, r_app (eval known fuel) c cs = Ok v1 /\ Sim.vrel v1 v.
+Proof. exact gapp_rel. Qed.
+Theorem generate_time_method_related : forall known fuel rv m cs v,
+  cwf rv -> Forall cwf cs -> run_method (gapp known fuel) rv m cs = Ok v ->
+  exists v1, run_method (r_app (eval known fuel)) rv m cs = Ok v1 /\ Sim.vrel v1 v.
+Proof. exact method_rel. Qed.
+(* ... the same value when it is first-order, with whatever fuel does not run out *)
 Theorem generate_time_call_agrees : forall known fuel c cs v,
   cwf c -> Forall cwf cs -> gapp known fuel c cs = Ok v -> fo v = true ->
   forall n, r_app (eval known n) c cs <> OOF -> r_app (eval known n) c cs = Ok v.
@@ -58,46 +73,74 @@ Theorem generate_time_method_agrees : forall known fuel rv m cs v,
   cwf rv -> Forall cwf cs -> run_method (gapp known fuel) rv m cs = Ok v -> fo v = true ->
   forall n, run_method (r_app (eval known n)) rv m cs <> OOF -> run_method (r_app (eval known n)) rv m cs = Ok v.
 Proof. exact method_ref. Qed.
+(* the value relation absorbs the C01 relation: a value computed by generated code can stand for the
+   value the reference semantics computes *)
+Theorem computed_constant_stands_for_value : forall known v v0 v1,
+  vrel known v0 v1 -> Sim.vrel v1 v -> vrel known v0 v.
+Proof. exact vrel_comp. Qed.
 
-(* the strict optimizer is sound for every configuration whose flags satisfy the obligations *)
-Theorem optimize_sound_strict : forall fl known fuel,
-  fold_agrees fl -> regroup_exact_ok fl ->
-  f_strict fl = true -> f_fieldcheck fl = true -> f_map fl = true ->
+(* THE OPTIMIZER IS SOUND FOR ALL PROGRAMS, for every configuration that passes the decidable test
+   cfg_ok (strict or not, closure-literal rule on or off, any static-function table) *)
+Theorem C02_optimize_sound_cfg : forall fl known fuel,
+  cfg_ok fl = true ->
   forall n m env a,
   side_ok a = true ->
   (forall x v, lookup x env = Some v -> vrel known v v) ->
   n <= m ->
   decided (eval known n env a) ->
-  wrel (vrel known) (eval known n env a) (eval known m env (optimize fl known fuel a)).
-Proof. exact OptSound.optimize_sound_strict. Qed.
+  orel known (eval known n env a) (eval known m env (optimize fl known fuel a)).
+Proof. exact optimize_sound_cfg. Qed.
 
-(* ... in particular with the flags of value.New() (closure-literal rule on, nothing assumed) *)
+(* ... with exact equality when the outcome is a first-order value, an error or a panic *)
+Theorem C02_optimize_sound_cfg_exact : forall fl known fuel,
+  cfg_ok fl = true ->
+  forall n m env a,
+  side_ok a = true ->
+  (forall x v, lookup x env = Some v -> fo v = true) ->
+  n <= m ->
+  fo_outcome (eval known n env a) = true ->
+  eval known m env (optimize fl known fuel a) = eval known n env a.
+Proof. exact optimize_sound_cfg_exact. Qed.
+
+(* the flags of value.New(): the optimizer of the implementation, no side condition on the program *)
+Theorem C02_optimize_sound_all : forall known fuel n m env a,
+  side_ok a = true ->
+  (forall x v, lookup x env = Some v -> vrel known v v) ->
+  n <= m ->
+  decided (eval known n env a) ->
+  orel known (eval known n env a) (eval known m env (optimize value_flags known fuel a)).
+Proof. exact optimize_sound_value_all_lemma. Qed.
+
+Theorem C02_optimize_sound_first_order_exact : forall known fuel n m env a,
+  side_ok a = true ->
+  (forall x v, lookup x env = Some v -> fo v = true) ->
+  n <= m ->
+  fo_outcome (eval known n env a) = true ->
+  eval known m env (optimize value_flags known fuel a) = eval known n env a.
+Proof. exact optimize_sound_value_exact_lemma. Qed.
+
+(* the same for the flags REGENERATED from the current tree, and for the configuration of the
+   correspondence run (regenerated flags + the harness functions tick/ptick): the obligation on the
+   tables is discharged by computation at every build *)
+Theorem C02_cfg_ok_generated : cfg_ok generated_flags = true /\ cfg_ok c02_flags = true.
+Proof. vm_compute. split; reflexivity. Qed.
+
+Theorem C02_optimize_sound_generated : forall known fuel n m env a,
+  side_ok a = true ->
+  (forall x v, lookup x env = Some v -> vrel known v v) ->
+  n <= m ->
+  decided (eval known n env a) ->
+  orel known (eval known n env a) (eval known m env (optimize generated_flags known fuel a)).
+Proof. exact (fun known fuel => optimize_sound_cfg generated_flags known fuel (proj1 C02_cfg_ok_generated)). Qed.
+
+(* the strict optimizer (the previous version of the theorem) is an instance *)
 Theorem optimize_sound_value_strict : forall known fuel n m env a,
   side_ok a = true ->
   (forall x v, lookup x env = Some v -> vrel known v v) ->
   n <= m ->
   decided (eval known n env a) ->
-  wrel (vrel known) (eval known n env a) (eval known m env (optimize (strict value_flags) known fuel a)).
+  orel known (eval known n env a) (eval known m env (optimize (strict value_flags) known fuel a)).
 Proof. exact optimize_sound_value_strict_lemma. Qed.
-
-(* the optimizer of the implementation, on the programs on which it agrees with the strict one *)
-Theorem optimize_sound_value : forall known fuel n m env a,
-  optimize value_flags known fuel a = optimize (strict value_flags) known fuel a ->
-  side_ok a = true ->
-  (forall x v, lookup x env = Some v -> vrel known v v) ->
-  n <= m ->
-  decided (eval known n env a) ->
-  wrel (vrel known) (eval known n env a) (eval known m env (optimize value_flags known fuel a)).
-Proof. exact optimize_sound_value_lemma. Qed.
-
-Theorem optimize_sound_value_fo_args : forall known fuel n m env a,
-  optimize value_flags known fuel a = optimize (strict value_flags) known fuel a ->
-  side_ok a = true ->
-  (forall x v, lookup x env = Some v -> fo v = true) ->
-  n <= m ->
-  decided (eval known n env a) ->
-  wrel (vrel known) (eval known n env a) (eval known m env (optimize value_flags known fuel a)).
-Proof. exact optimize_sound_value_fo_lemma. Qed.
 
 (* the flags of value.New() satisfy all obligations (no operator is flagged commutative any more) *)
 Theorem flags_ok_value : flags_ok value_flags.
@@ -171,6 +214,19 @@ Example C02_nonvacuous :
   eval [] 50 [(nv_x, VInt 7)] (optimize value_flags [] 50 nv_prog) = Ok (VInt 65).
 Proof. vm_compute. repeat split. Qed.
 
+(* non-vacuity of the general theorem: a program on which the implementation's optimizer keeps a
+   computed closure constant that captures a value (the strict optimizer does not fold there); it
+   is inside the hypotheses, and the optimized program computes the same value *)
+Example C02_nonvacuous_computed_closure :
+  ast_eqb (optimize value_flags [] 50 nv_prog2) (optimize (strict value_flags) [] 50 nv_prog2) = false /\
+  optimize value_flags [] 50 nv_prog2 =
+    AOp op_add (ACall (AConst (VClo [nv_y] (AOp op_add (AIdent nv_x) (AIdent nv_y)) [(nv_x, VInt 1)] []))
+                      [AConst (VInt 2)]) (AIdent nv_a) /\
+  side_ok nv_prog2 = true /\
+  eval [] 50 [(nv_a, VInt 5)] nv_prog2 = Ok (VInt 8) /\
+  eval [] 50 [(nv_a, VInt 5)] (optimize value_flags [] 50 nv_prog2) = Ok (VInt 8).
+Proof. vm_compute. repeat split. Qed.
+
 (* the table obligation: the flags regenerated from the current value.New() (Generated/ValueCfg.v ->
    Sem/OptCfg.v generated_flags) agree with value_flags, the configuration all theorems below are
    about: same operators with the same IsPure/IsCommutative flags, same unary operators, every static
@@ -181,12 +237,18 @@ Proof. vm_compute. reflexivity. Qed.
 
 Print Assumptions eval_mono.
 Print Assumptions optimized_form_sound.
+Print Assumptions generate_time_call_related.
+Print Assumptions generate_time_method_related.
 Print Assumptions generate_time_call_agrees.
 Print Assumptions generate_time_method_agrees.
-Print Assumptions optimize_sound_strict.
+Print Assumptions computed_constant_stands_for_value.
+Print Assumptions C02_optimize_sound_cfg.
+Print Assumptions C02_optimize_sound_cfg_exact.
+Print Assumptions C02_optimize_sound_all.
+Print Assumptions C02_optimize_sound_first_order_exact.
+Print Assumptions C02_cfg_ok_generated.
+Print Assumptions C02_optimize_sound_generated.
 Print Assumptions optimize_sound_value_strict.
-Print Assumptions optimize_sound_value.
-Print Assumptions optimize_sound_value_fo_args.
 Print Assumptions flags_ok_value.
 Print Assumptions fold_agrees_value.
 Print Assumptions regroup_ok_value.
